@@ -750,20 +750,27 @@ static void run_projdec(uint64_t seed, long cases)
       do_projdec(1, 1, ch, streams + 1, coupled - 1, dm, dsz, dsz);
       do_projdec(1, 1, ch, coupled, streams, dm, dsz, dsz);
    }
+   { static const int bad[][4] = {{0, 1, 0, 0}, {1, 1, -1, 0}, {1, 0, 0, 0}, {0, 0, 0, 0}, {-1, -2, 0, 4}, {-1, 1, 0, 0}, {256, 1, 0, 512},
+        {255, 1, 0, 510}, {255, 128, 127, 130050}, {1, 255, 0, 510}, {1, 255, 1, 512}, {2, 1, 0, 4}, {1, 2, 2, 8}, {1, 2, 3, 10}};
+     int k; memset(dm, 0x40, sizeof dm);
+     for (k = 0; k < (int)(sizeof bad / sizeof bad[0]); k++) { long sz = bad[k][3], nb = sz > 0 && sz < (long)sizeof dm ? sz : 0;
+        if (sz >= (long)sizeof dm) nb = 0, sz = bad[k][3];
+        if (nb == 0 && sz > 0) continue;          /* never announce more than the buffer holds */
+        do_projdec(1, 1, bad[k][0], bad[k][1], bad[k][2], dm, nb, sz); do_projdec(0, 1, bad[k][0], bad[k][1], bad[k][2], dm, nb, sz); } }
    for (c = 0; c < cases; c++) {
       int ch = vchance(&r, 85) ? vrange(&r, 1, 12) : (vchance(&r, 50) ? vrange(&r, -2, 60) : vrange(&r, 250, 258));
       int st = vchance(&r, 85) ? vrange(&r, 1, 8) : vrange(&r, -1, 40), co = vchance(&r, 85) ? vrange(&r, 0, st > 0 ? st : 0) : vrange(&r, -1, st + 1);
       long want = 2L * (st + co) * ch, size = vchance(&r, 75) ? want : want + 2 * vrange(&r, -2, 2), nbytes, i;
       if (size < 0) size = 0;
       if (size > (long)sizeof dm - 8) continue;
-      if (size == want && want <= 0) continue;     /* zero-length VLA in the code under test: probed separately (mode projvla) */
       nbytes = size;                               /* the buffer always holds what the caller announces */
       for (i = 0; i < nbytes; i++) dm[i] = (unsigned char)(vchance(&r, 20) ? (vchance(&r, 50) ? 0x80 : 0xff) : vnext(&r));
       do_projdec(vbelow(&r, 2), !vchance(&r, 6), ch, st, co, dm, nbytes, size);
    }
 }
 
-/* the one call on which opus_projection_decoder_init declares a zero-length array before validating its arguments */
+/* regression corpus: the calls on which opus_projection_decoder_init used to declare a zero-length array before
+   validating its arguments (fixed by 31272f65); must answer BAD_ARG / ALLOC_FAIL without a sanitizer report */
 static int run_projvla(void)
 {
    unsigned char m[4] = {0, 0, 0, 0};
